@@ -31,6 +31,8 @@ def main():
     try:
         import gen
         gen.regenerate(ctx)
+        if hasattr(mod, "pre_build"):
+            mod.pre_build(ctx)
         # build only what this property needs (its theorem module + the driver modules its Main imports)
         build = core.lake_build(tuple([mod.MODULE] + list(getattr(mod, "BUILD_TARGETS", []))))
         audit = core.audit_axioms(prop, mod.MODULE, mod.THEOREMS) if build.ok else None
